@@ -985,15 +985,20 @@ def run_ueb(ctx, r):
 
 
 # ------------------------------------------------------------- pad and trim
-def gated_by_truth(fn, target_pred, name_nf, polarity="truth"):
-    """All paths to nodes satisfying target_pred pass an edge on which `name_nf` is truthy."""
+def gated_by_truth(fn, target_pred, name_nf, polarity="truth", also=None):
+    """Paths to nodes satisfying target_pred that pass no edge on which `name_nf` is truthy
+    (or on which the canonical fact `also` holds)."""
     cfg = fn.cfg()
     fnorm = FlowNorm(fn)
 
     def gate(n, lab):
         f = fnorm.edge_fact(n, lab)
-        return bool(f) and f[0] == polarity and f[1] == name_nf
+        return bool(f) and ((f[0] == polarity and f[1] == name_nf) or (also is not None and f == also))
     return find_path_avoiding(cfg, target_pred, gate_edge=gate)
+
+
+def tail_fact(seg_name, numseg_nf):
+    return Normaliser(Env(None, depth=0)).cmp(parse_expr("%s == %s - 1" % (seg_name, numseg_nf)), True)
 
 
 def is_tail_expr(fn, sym, node, e, seg_name, numseg_nf):
@@ -1022,9 +1027,20 @@ def run_padtrim(ctx, r):
     if len(pn) != 1:
         raise AnchorVanished("_gather_data._got: padding statement not found")
     r.site(got, pn[0].ast, "tail padding")
-    for (n, w) in gated_by_truth(got, pads, "allow_short"):
-        r.violation(got, got.loc(n.ast), "segment data is padded on a path where allow_short was not tested true "
-                    "(path: %s)" % w.brief(), w)
+    fng = FlowNorm(got)
+
+    def pad_gate(n, lab):
+        f = fng.edge_fact(n, lab)
+        if not f:
+            return False
+        if f[0] == "truth" and f[1] == "allow_short":
+            return True
+        # an exact-length precondition makes the padding a no-op
+        return f[0] == "==" and n.assume and any(re.match(r"^len\(.*\)$", x or "") for x in f[1:]) \
+            and any(re.match(r"^\w+$", x or "") for x in f[1:])
+    for (n, w) in find_path_avoiding(got.cfg(), pads, gate_edge=pad_gate):
+        r.violation(got, got.loc(n.ast), "a short read of a non-tail segment is silently zero-padded: neither allow_short "
+                    "nor an exact-length precondition holds (path: %s)" % w.brief(), w)
     a = pn[0].ast
     ok = isinstance(a, ast.AugAssign) and isinstance(a.op, ast.Add) and isinstance(a.target, ast.Name)
     if ok:
@@ -1032,7 +1048,8 @@ def run_padtrim(ctx, r):
         other = mult.right if isinstance(mult.left, ast.Constant) else mult.left
         padlen = nrm.poly(other)
         gs = Sym(idx, gd)
-        free = sorted(names_in(other) - {a.target.id})
+        bound_outside = {x for n in gd.cfg().nodes for x in node_stores(n)}
+        free = sorted((names_in(other) - {a.target.id}) & bound_outside)
         ok = len(free) == 1
         if ok:
             # the free name is bound in _gather_data: the requested read size
@@ -1044,7 +1061,12 @@ def run_padtrim(ctx, r):
     r.require(ok, got, got.loc(a), "the tail is not padded to num_chunks * input_chunk_size bytes: %s" % src(got, a))
     # the chunks are input_chunk_size slices of the padded data
     rets = got.cfg().find(is_return)
-    ch = Sym(idx, got).expand(rets[0], rets[0].ast.value) if len(rets) == 1 else None
+    ch = rets[0].ast.value if len(rets) == 1 else None
+    if isinstance(ch, ast.Name):
+        gsy = Sym(idx, got)
+        dd_ = gsy.rd.get(rets[0].id, {}).get(ch.id, frozenset())
+        if len(dd_) == 1 and C.PARAM_DEF not in dd_:
+            ch = gsy.fnorm._def_value(got.cfg().nodes[next(iter(dd_))], ch.id)
     ok = isinstance(ch, ast.ListComp) and isinstance(ch.elt, ast.Subscript) and isinstance(ch.elt.slice, ast.Slice) \
         and len(ch.generators) == 1 and isinstance(ch.generators[0].iter, ast.Call) and call_tail(ch.generators[0].iter) == "range"
     if ok:
@@ -1126,9 +1148,11 @@ def run_padtrim(ctx, r):
             okt, _g = is_tail_expr(db, ds, n, n.ast, dbp[0], "self.num_segments")
             if okt:
                 tailname = n.ast.id
-    if tailname is None:
-        raise AnchorVanished("_decode_blocks: no branch on segnum == num_segments-1")
     r.site(db, dc, "tail decode")
+    if tailname is None:
+        r.violation(db, db.loc(), "_decode_blocks does not branch on %s == num_segments-1 (the padded tail segment "
+                    "needs its own decoder and trimming)" % dbp[0])
+        tailname = "?"
     sp = [c for c in calls_in_func(db, "set_params") if attr_path(c.func.value) == recv]
     if len(sp) != 1:
         raise AnchorVanished("_decode_blocks: tail codec set_params not found")
@@ -1137,7 +1161,8 @@ def run_padtrim(ctx, r):
     dpar = first_positional_params(dec_fn)
     r.require([b.get(x) for x in dpar] == ["self.tail_segment_padded", "self._verifycap.needed_shares", "self._verifycap.total_shares"],
               db, db.loc(sp[0]), "tail decoder parameters are %s" % b)
-    for (n, w) in gated_by_truth(db, lambda q: any(c is sp[0] for c in node_calls(q)), tailname):
+    tf = tail_fact(dbp[0], "self.num_segments")
+    for (n, w) in gated_by_truth(db, lambda q: any(c is sp[0] for c in node_calls(q)), tailname, also=tf):
         r.violation(db, db.loc(n.ast), "the padded-tail decoder is configured for a non-tail segment", w)
     cdefs = db.cfg() and ds.rd.get(dn.id, {}).get(recv, frozenset())
     vals = sorted(nf(ds.fnorm._def_value(db.cfg().nodes[d], recv)) for d in cdefs if d != C.PARAM_DEF)
@@ -1145,7 +1170,7 @@ def run_padtrim(ctx, r):
     for d in cdefs:
         dnode = db.cfg().nodes[d]
         if nf(ds.fnorm._def_value(dnode, recv)) != "self._codec":
-            for (n, w) in gated_by_truth(db, lambda q, _d=dnode: q is _d, tailname):
+            for (n, w) in gated_by_truth(db, lambda q, _d=dnode: q is _d, tailname, also=tf):
                 r.violation(db, db.loc(n.ast), "a fresh decoder replaces the segment decoder for a non-tail segment", w)
     # the full-segment decoder is configured from the UEB segment size
     pu = idx.func(NODE + "._parse_and_store_UEB")
@@ -1164,8 +1189,12 @@ def run_padtrim(ctx, r):
         return n.kind == "stmt" and isinstance(n.ast, ast.Assign) and isinstance(n.ast.value, ast.Subscript) \
             and isinstance(n.ast.value.slice, ast.Slice)
     tn = pr.cfg().find(trims)
-    if len(tn) != 1:
-        raise AnchorVanished("_decode_blocks._process: trimming slice not found")
+    if len(tn) > 1:
+        raise AnalysisError("_decode_blocks._process: several slicing assignments")
+    if not tn:
+        r.site(pr, None, "tail trim")
+        r.violation(pr, pr.loc(), "the decoded tail segment is never trimmed to tail_segment_size (padding would be delivered)")
+        return padtrim_share(ctx, r)
     r.site(pr, tn[0].ast, "tail trim")
     sl = tn[0].ast.value.slice
     r.require(sl.lower is None and sl.step is None and nf(sl.upper) == "self.tail_segment_size", pr, pr.loc(tn[0].ast),
@@ -1189,6 +1218,12 @@ def run_padtrim(ctx, r):
                     if not trims(cfgp.nodes[d]) and any(cfgp.nodes[i].kind == "exit" for (i, _s) in vis):
                         r.violation(pr, pr.loc(n.ast), "the tail segment can be returned without trimming the padding")
 
+    padtrim_share(ctx, r)
+
+
+def padtrim_share(ctx, r):
+    idx = ctx.idx
+    nrm = Normaliser(Env(None, depth=0))
     # ---- reader: block addressing in the share vs the writer's put_block
     sd = idx.func(SHARE + "._satisfy_data_block")
     sdp = first_positional_params(sd)
@@ -1218,7 +1253,8 @@ def run_padtrim(ctx, r):
         r.violation(sd, sd.loc(), "_satisfy_data_block has no branch on segnum == num_segments-1")
     elif "self._node.tail_block_size" in vals:
         tnode = vals["self._node.tail_block_size"]
-        for (n, w) in gated_by_truth(sd, lambda q: q is tnode, tn2):
+        tf2 = tail_fact(sdp[0], "self._node.num_segments")
+        for (n, w) in gated_by_truth(sd, lambda q: q is tnode, tn2, also=tf2):
             r.violation(sd, sd.loc(n.ast), "the tail block length is used for a non-tail segment", w)
         # and the tail never keeps the full block length
         cfgs = sd.cfg()
@@ -1227,7 +1263,7 @@ def run_padtrim(ctx, r):
             if n.kind == "test":
                 for (d, lab) in cfgs.succ[n.id]:
                     f = fns.edge_fact(n, lab)
-                    if f and f[0] == "truth" and f[1] == tn2 and cfgs.nodes[d] is not tnode:
+                    if f and (f == tf2 or (f[0] == "truth" and f[1] == tn2)) and cfgs.nodes[d] is not tnode:
                         vis, par = explore(cfgs, 0, lambda a_, l_, nx, st_: None if a_ is tnode else 0, start=cfgs.nodes[d])
                         if any(cfgs.nodes[i] is pn_ for (i, _s) in vis):
                             r.violation(sd, sd.loc(n.ast), "the tail block can be read with the full block length")
